@@ -383,6 +383,11 @@ def finish(rep, level_text_base, trusted_base, assumptions, checker_cmd):
       'wall_s': round(wall, 2),
       'violations': len(viol_lines),
   }
+  cov = ev['coverage']
+  if 'exhaustive' in cov and not isinstance(cov['exhaustive'], bool):
+    cov['exhaustive_detail'] = cov.pop('exhaustive')
+  for k in ('evaluations', 'distinct_nontrivial', 'obligations', 'discharged'):
+    cov[k] = int(cov[k])
   json.dump(ev, open(os.path.join(EVID, rep.prop_id + '.json'), 'w'), indent=1)
   for k in rep.known:
     print('KNOWN-FINDING: property=%s %s' % (rep.prop_id, k))
